@@ -13,6 +13,26 @@ KFull == KQuick \cup { <<0,0,1,0>>, <<1,0,0,0>>, <<0,0,0,0,0,0>>, <<0,0,0,1,0,0>
 LFull == KFull \cup LQuick \cup { <<0,0,0,0,0,1>>, <<0,0,0,1,0,0,0,0>>, <<1,0,0,0,0,0>>, <<0,0,0,1,1,1>> }
 VFull == { [tag |-> 97, len |-> 1], [tag |-> 129, len |-> 1], [tag |-> 98, len |-> 20], [tag |-> 200, len |-> 33] }
 
+\* H-threshold: value lengths that put leaf / branch encodings at 31, 32, 33 bytes
+KThresh == { <<>>, <<0,0>>, <<0,1>>, <<0,0,0,0>>, <<0,0,0,1>> }
+LThresh == KThresh \cup { <<0,0,0,0,0,0>>, <<1,0>>, <<0,0,1,0>> }
+\* (a leaf is 3+L bytes for a path of 0-1 nibbles, 5+L for 2-3 nibbles)
+VThreshA == { [tag |-> 120, len |-> 26], [tag |-> 121, len |-> 27], [tag |-> 122, len |-> 28] }
+VThreshB == { [tag |-> 123, len |-> 29], [tag |-> 124, len |-> 30], [tag |-> 125, len |-> 31] }
+VThreshC == { [tag |-> 120, len |-> 27], [tag |-> 121, len |-> 28], [tag |-> 122, len |-> 29], [tag |-> 7, len |-> 1] }
+\* H-long: RLP long-string (>= 56) and long-list forms
+KLong == { <<>>, <<0,0>>, <<0,1>>, <<0,0,0,1>> }
+LLong == KLong \cup { <<0,0,0,0>>, <<1,0>> }
+VLong == { [tag |-> 1, len |-> 55], [tag |-> 2, len |-> 56], [tag |-> 3, len |-> 57], [tag |-> 4, len |-> 300] }
+\* H-share: identical subtrees under different parents (reference counts 2 and 3)
+KShare == { <<0,0,10,10>>, <<0,1,10,10>>, <<1,0,10,10>>, <<0,0,10,11>>, <<0,1,10,11>>, <<10,10>> }
+LShare == KShare \cup { <<0,0>>, <<0,0,10,0>>, <<>> , <<0,1,10,10,0,0>>}
+VShare == { [tag |-> 200, len |-> 33], [tag |-> 201, len |-> 40] }
+\* H-faults: long values, so that several hashed nodes exist
+KFaults == { <<0,0>>, <<0,1>>, <<0,0,0,0>>, <<0,0,0,1>>, <<1,0>>, <<>> }
+LFaults == KFaults \cup { <<0,0,0,0,0,0>>, <<1,1>>, <<0,0,1,0>> }
+VFaults == { [tag |-> 200, len |-> 33], [tag |-> 201, len |-> 40] }
+
 NoBugs == {}
 BugsD1 == {"D1"}
 BugsD2 == {"D2"}
@@ -22,6 +42,11 @@ OnlyPrune == {TRUE}
 OnlyNoPrune == {FALSE}
 FDirect == {"direct"}
 FBatch == {"direct", "batch"}
+FBatchNoop == {"direct", "batch", "noop"}
+FHist == {"direct", "batch", "second", "failwrite"}
+FBatchFail == {"direct", "batch", "failwrite"}
+FFaults == {"direct", "batch", "lose", "get"}
+FFaultsDirect == {"direct", "lose", "get"}
 
 \* depth bound as a guard of the next-state relation (a state constraint would
 \* generate and then throw away the successors of the deepest level)
